@@ -370,6 +370,60 @@ def h_idlike(pre: int, suf: int, where: int, deep: bool, rel: bool, sibling: boo
     assert not problems
 
 
+def _legacy_between_case(where, rc, depth, rel):
+    """a left-over configuration file of the pre-2.0 layout (signac.rc / .signacrc, e.g. an archived old study) in a plain sub-directory
+    BETWEEN the queried directory and the enclosing initialised project: the nearest enclosing INITIALISED project is still the answer"""
+    problems = []
+    with SL.Scratch() as sc:
+        pr = signac.init_project(os.path.join(sc.root, "P"))
+        job = pr.open_job({"x": 1}).init()
+        base = os.path.join(pr.path, "archive") if where == 0 else os.path.join(job.path, "imported")
+        holder = os.path.join(base, "study2019")
+        os.makedirs(holder)
+        with open(os.path.join(holder, ["signac.rc", ".signacrc"][rc % 2]), "w") as f:
+            f.write(["project = old\n", "project = old\nschema_version = 1\nworkspace_dir = ws\n"][rc // 2])
+        q = holder
+        for i in range(depth):
+            q = os.path.join(q, "d%d" % i)
+        os.makedirs(q, exist_ok=True)
+        old = os.getcwd()
+        try:
+            if rel:
+                os.chdir(pr.path)
+                q = os.path.relpath(q, pr.path)
+            try:
+                got = signac.get_project(q).path
+            except LookupError:
+                got = None
+            except Exception as e:  # noqa
+                got = ("error", type(e).__name__, str(e)[:80])
+            if got != pr.path:
+                problems.append(("get_project below a directory with a legacy configuration file", got, pr.path))
+            if where == 1:
+                try:
+                    j = signac.get_job(q)
+                    gj = (j.id, j.project.path)
+                except LookupError:
+                    gj = None
+                except Exception as e:  # noqa
+                    gj = ("error", type(e).__name__, str(e)[:80])
+                if gj != (job.id, pr.path):
+                    problems.append(("get_job below a directory with a legacy configuration file", gj))
+        finally:
+            os.chdir(old)
+    return problems
+
+
+def h_legacy_between(where: int, rc: int, depth: int, rel: bool):
+    assert 0 <= where <= 1 and 0 <= rc <= 3 and 0 <= depth <= 2
+    fresh_path()
+    where, rc, depth, rel = ci(where, 0, 1), ci(rc, 0, 3), ci(depth, 0, 2), cb(rel)
+    with nt():
+        problems = _legacy_between_case(where, rc, depth, rel)
+    reached()
+    assert not problems
+
+
 def extra_checks(tier_):
     """E3: z3 builds directory names from the LIVE job id regular expression - names that contain an id-like run without being one
     (non-empty prefix / non-empty suffix / two adjacent runs / upper-case look-alike) - and every witness is replayed through the real
@@ -432,4 +486,5 @@ HARNESSES = [
     dict(name="h_symlink", timeout=(200, 400), unblock=True),
     dict(name="h_init", timeout=(300, 600), unblock=True),
     dict(name="h_idlike", timeout=(300, 600), parts=(4, 4), unblock=True),
+    dict(name="h_legacy_between", timeout=(300, 600), unblock=True),
 ]
